@@ -12,7 +12,7 @@ def sig(e):
 
 def run(tier, seed):
     exe = vlib.build_harness("vh", "vh_aggsig")
-    key = "%s-%s-%s-%d" % (file_hash(exe), vlib.spec_hash("Conditions.tla", "ConditionsObs.tla", "Generator.tla", "Bundle.tla", "AggSig.tla", "Trace_AggSig.tla", "MC_AggSig.tla", "CondMenus.tla"), tier, seed)
+    key = "%s-%s-%s-%s-%d" % (file_hash(__file__)[:8], file_hash(exe), vlib.spec_hash("Conditions.tla", "ConditionsObs.tla", "Generator.tla", "Bundle.tla", "AggSig.tla", "Trace_AggSig.tla", "MC_AggSig.tla", "CondMenus.tla"), tier, seed)
     wd = vlib.workdir("C05")
     cache = os.path.join(wd, "result-%s.json" % key)
     if os.path.exists(cache):
